@@ -138,6 +138,16 @@ func stressParams(r *hx.Rand, prof Profile, big bool) StressParams {
 	p.ZeroReads = prof.ZeroReads && r.Chance(1, 2)
 	p.ConcOpen = prof.ConcOpen
 	p.UseClose = r.Chance(1, 3)
+	if prof.Race > 0 && r.Chance(2, 5) {
+		// dedicated round: CloseWrite races with multi-block Writes, small windows
+		p.CWRace, p.UseClose, p.Deadlines, p.Burst = true, false, false, false
+		p.Streams = [2]int{3 + r.Intn(6), 1 + r.Intn(4)}
+		p.Bytes = 300 + r.Intn(5000)
+		for i := 0; i < 2; i++ {
+			p.Cfg[i].Window = 2 + r.Intn(63)
+			p.Cfg[i].Buffers = 2 + r.Intn(3)
+		}
+	}
 	return p
 }
 
@@ -235,6 +245,7 @@ func drive(c *hx.Ctx, t *testing.T, prop string, prof Profile) {
 		emitTrace(RunTrace(t, c.R, prof, 0, strings.Fields(l)))
 		c.Count("directed")
 	}
+	defer func() { c.Note(fmt.Sprintf("race timing: final spin %.0f iterations", raceSpin)) }()
 	nTrace := c.Size(8000, 300000)
 	nStress := c.Size(100, 4000)
 	timeouts := 0
@@ -274,6 +285,8 @@ func directed(prof Profile) []string {
 		"T 4,1,1 4,1,1 o:A d:B a:B d:A r:A:1:2 w:A:1:0102030405060708 c:A:1 r:B:1:1 mc:B end",
 		// writer blocked on window does not keep the only write buffer
 		"T 9,1,2 2,1,2 o:A o:A d:B d:B a:B a:B d:A d:A w:A:1:010203040506 w:A:3:0a0b d:B d:B r:B:3:2 d:A r:B:1:2 d:A d:B r:B:1:9 end",
+		// CloseWrite arrives together with the increment a blocked multi-chunk Write waits for
+		"T 4,1,1 4,1,1 o:A d:B a:B d:A w:A:1:0102030405060708090a d:B r:B:1:3 dcw:A:1 d:B d:B d:B r:B:1:9 r:B:1:9 r:B:1:9 end",
 		// stall: increments aggregate, close cancels them
 		"T 8,1,2 8,1,2 o:A d:B a:B d:A o:A d:B a:B d:A w:A:1:01020304 w:A:3:0506 d:B d:B st:B r:B:1:1 r:B:1:1 r:B:3:1 r:B:1:1 c:B:3 us:B d:A d:A d:A end",
 	}
